@@ -74,8 +74,8 @@ type SimConfig struct {
 	// OnSync, if set, runs synchronously inside the engine's OnTableUpdated callback (on the engine's goroutine,
 	// with the live table) before the snapshot is recorded: this is where actors are fed, exactly like the
 	// repository's own actor tests do.
-	OnSync func(t *pt.Table)
-	LightTrace  bool // keep only compact trace (drop raw JSON of old events)
+	OnSync     func(t *pt.Table)
+	LightTrace bool // keep only compact trace (drop raw JSON of old events)
 }
 
 // Sim owns one table engine plus the spies around it.
@@ -300,13 +300,13 @@ func (s *Sim) SMJSON() []byte {
 }
 
 type SMState struct {
-	MaxSeat      int                                `json:"max_seat"`
-	SeatData     map[int]*seat_manager.SeatPlayer   `json:"seat_data"`
-	DealerSeatID int                                `json:"dealer_seat_id"`
-	SBSeatID     int                                `json:"sb_seat_id"`
-	BBSeatID     int                                `json:"bb_seat_id"`
-	Rule         string                             `json:"rule"`
-	IsInit       bool                               `json:"is_init"`
+	MaxSeat      int                              `json:"max_seat"`
+	SeatData     map[int]*seat_manager.SeatPlayer `json:"seat_data"`
+	DealerSeatID int                              `json:"dealer_seat_id"`
+	SBSeatID     int                              `json:"sb_seat_id"`
+	BBSeatID     int                              `json:"bb_seat_id"`
+	Rule         string                           `json:"rule"`
+	IsInit       bool                             `json:"is_init"`
 }
 
 func (s *Sim) SM() *SMState {
@@ -417,6 +417,30 @@ func (s *Sim) Do(pid, act string, chips int64) error {
 	return s.call("act:"+act, fmt.Sprintf("%s %d", pid, chips), func() error {
 		return s.safe(func() error { return DoAction(s.TE, pid, act, chips) })
 	})
+}
+
+// DoBounded is Do with a bound on how long the call may take; returned=false means the call is still blocked
+// inside the engine after wait (the goroutine is left behind).
+func (s *Sim) DoBounded(pid, act string, chips int64, wait time.Duration) (err error, returned bool) {
+	ch := make(chan error, 1)
+	go func() { ch <- s.Do(pid, act, chips) }()
+	select {
+	case err = <-ch:
+		return err, true
+	case <-time.After(wait):
+		return nil, false
+	}
+}
+
+// LockHeldFor reports whether the engine lock was found held at every one of n probes spaced gap apart.
+func (s *Sim) LockHeldFor(n int, gap time.Duration) bool {
+	for i := 0; i < n; i++ {
+		if !pt.VerifEngineLockHeld(s.TE) {
+			return false
+		}
+		time.Sleep(gap)
+	}
+	return true
 }
 
 func DoAction(te pt.TableEngine, pid, act string, chips int64) error {
@@ -576,13 +600,14 @@ func (h *Hand) Roster() []string {
 
 // Script customises PlayHand.
 type Script struct {
-	Policy    Policy
-	OnEvent   func(e *Ev)                           // every consumed event
-	BeforeAct func(e *Ev, gp int, pid string) bool  // at Q-turn before the policy move; return false to skip the policy move
-	OnRequest func(e *Ev, kind string, asked []string) []string // ready/ante/blinds: return the ids that respond (in that order); nil = all asked in order
-	MaxWait   time.Duration
-	StopAfterSettle bool // return right after the settled snapshot (do not wait for setup/pause)
-	Stop      func() bool // polled: return from PlayHand as soon as it reports true
+	Policy          Policy
+	OnEvent         func(e *Ev)                                       // every consumed event
+	BeforeAct       func(e *Ev, gp int, pid string) bool              // at Q-turn before the policy move; return false to skip the policy move
+	AfterAct        func(e *Ev, gp int, pid, act string, err error)   // right after the policy move's call has returned (the resulting state may not be published yet)
+	OnRequest       func(e *Ev, kind string, asked []string) []string // ready/ante/blinds: return the ids that respond (in that order); nil = all asked in order
+	MaxWait         time.Duration
+	StopAfterSettle bool        // return right after the settled snapshot (do not wait for setup/pause)
+	Stop            func() bool // polled: return from PlayHand as soon as it reports true
 }
 
 func pidOf(t *pt.Table, gp int) string {
@@ -778,6 +803,9 @@ func (s *Sim) react(e *Ev, sc *Script, h *Hand) {
 			rec.Err = err.Error()
 		}
 		h.Acts = append(h.Acts, rec)
+		if sc.AfterAct != nil {
+			sc.AfterAct(e, cp, pid, act, err)
+		}
 	}
 }
 
